@@ -46,6 +46,13 @@ Step(a) ==
                     /\ recs' = (IF st' = "None" THEN NoRecs
                                 ELSE IF rc0[1] = -1 THEN <<total, total>>
                                 ELSE <<rc0[1], rc0[2] + 1>>)
+(* n correct predictions in a row while the recent window already holds correct predictions only and nothing is reported: each of them is a
+   Step(1) that leaves the window as it is, moves one correct outcome into the past and - accuracy has not decreased - reports nothing.  The closed
+   form lets a trace fold a long quiet stretch into one event; MC_STEPD.QuietIsStep checks it against Step(1) on every reachable such state
+   (the precondition is preserved by the step, so n steps follow by induction). *)
+QuietPre == st = "None" /\ recs = NoRecs /\ Len(win) = cfg.w /\ SumSeq(win) = cfg.w
+Quiet(n) == /\ n >= 1 /\ QuietPre
+            /\ since' = since + n /\ total' = total + n /\ r' = r + n /\ UNCHANGED <<cfg, win, st, recs>>
 Reset == /\ since' = 0 /\ st' = "None" /\ recs' = NoRecs /\ win' = <<>> /\ r' = 0 /\ UNCHANGED <<cfg, total>>
 PendingReset == st = "drift" /\ Reset
 ============================================================================
